@@ -159,6 +159,7 @@ pub fn child(profile: &Profile, args: &[String]) -> ! {
     let tier = if args.get(1).map(|s| s.as_str()) == Some("thorough") { Tier::Thorough } else { Tier::Quick };
     install_crash_handlers();
     let _ = crate::common::WORKER_PANIC_HANDLER.set(Box::new(worker_panic_to_crash));
+    crate::vm::HANG_AS_CRASH.store(true, std::sync::atomic::Ordering::SeqCst);
     let variant = args.get(3).map(|s| s.as_str()).unwrap_or("");
     let cfg = (profile.boot)(plan, variant, tier);
     set_current_case(&json!({"plan": plan, "program": "boot"}));
